@@ -162,7 +162,7 @@ def CtlQ (scope : List String) (ρ : Env) (s' : CState) : FState → Nat → Pro
 /-- what a piece of the compiler did between `s` and `s'`: `W` qubits outside the scratch space it may have
 written, `K` cache keys added, `Mk` qubits marked, `Q` the condition the controls of its gates satisfy
 (only claimed when `wo = false`) -/
-structure Sem2 (σ0 : FState) (wo : Bool) (Q : FState → Nat → Prop) (W : Nat → Prop) (K : BExp → Prop)
+structure Sem2 (scope : List String) (σ0 : FState) (wo : Bool) (Q : FState → Nat → Prop) (W : Nat → Prop) (K : BExp → Prop)
     (Mk : Nat → Prop) (s s' : CState) : Prop where
   nq : s.qc.numQubits ≤ s'.qc.numQubits
   avail : ∀ q, Avail s' q → Avail s q
@@ -171,7 +171,7 @@ structure Sem2 (σ0 : FState) (wo : Bool) (Q : FState → Nat → Prop) (W : Nat
   marks : ∀ m ∈ s'.qc.marked, m ∈ s.qc.marked ∨ Mk m
   mkeep : ∀ m ∈ s.qc.marked, m ∈ s'.qc.marked
   akeep : ∀ a ∈ s.qc.anc, a ∈ s'.qc.anc
-  qkeep : ∀ n q, ancLike n = false → dictGet? s.qc.qmap n = some q → dictGet? s'.qc.qmap n = some q
+  qkeep : ∀ n q, Known scope n → dictGet? s.qc.qmap n = some q → dictGet? s'.qc.qmap n = some q
   qnew : ∀ n q, dictGet? s'.qc.qmap n = some q → dictGet? s.qc.qmap n = some q ∨ s.qc.numQubits ≤ q
   seg : ∃ l, s'.qc.gates.toList = s.qc.gates.toList ++ l ∧
       s'.qc.gatesComputed.toList = s.qc.gatesComputed.toList ++ l ∧
@@ -181,16 +181,16 @@ theorem cur_of_gates {σ0 : FState} {s s' : CState} {l : List AGate}
     (h : s'.qc.gates.toList = s.qc.gates.toList ++ l) : cur σ0 s' = runF l (cur σ0 s) := by
   unfold cur; rw [h, runF_append]
 
-theorem Sem2.refl {σ0 : FState} {wo : Bool} {Q : FState → Nat → Prop} {W : Nat → Prop} {K : BExp → Prop}
-    {Mk : Nat → Prop} (s : CState) : Sem2 σ0 wo Q W K Mk s s :=
+theorem Sem2.refl {scope : List String} {σ0 : FState} {wo : Bool} {Q : FState → Nat → Prop} {W : Nat → Prop} {K : BExp → Prop}
+    {Mk : Nat → Prop} (s : CState) : Sem2 scope σ0 wo Q W K Mk s s :=
   ⟨Nat.le_refl _, fun _ h => h, fun _ _ _ => rfl, fun p hp => Or.inl ⟨p, hp, rfl⟩, fun _ hm => Or.inl hm,
    fun _ h => h, fun _ h => h, fun _ _ _ h => h, fun _ _ h => Or.inl h,
    ⟨[], by simp, by simp, fun _ h => absurd h List.not_mem_nil, fun _ => trivial⟩⟩
 
-theorem Sem2.trans' {σ0 : FState} {wo : Bool} {Q : FState → Nat → Prop} {W1 W2 : Nat → Prop}
+theorem Sem2.trans' {scope : List String} {σ0 : FState} {wo : Bool} {Q : FState → Nat → Prop} {W1 W2 : Nat → Prop}
     {K1 K2 : BExp → Prop} {Mk1 Mk2 : Nat → Prop} {s s1 s2 : CState}
-    (h1 : Sem2 σ0 wo Q W1 K1 Mk1 s s1) (h2 : Sem2 σ0 wo Q W2 K2 Mk2 s1 s2) :
-    Sem2 σ0 wo Q (fun q => W1 q ∨ W2 q) (fun e => K1 e ∨ K2 e) (fun m => Mk1 m ∨ Mk2 m) s s2 := by
+    (h1 : Sem2 scope σ0 wo Q W1 K1 Mk1 s s1) (h2 : Sem2 scope σ0 wo Q W2 K2 Mk2 s1 s2) :
+    Sem2 scope σ0 wo Q (fun q => W1 q ∨ W2 q) (fun e => K1 e ∨ K2 e) (fun m => Mk1 m ∨ Mk2 m) s s2 := by
   obtain ⟨l1, g1, c1, t1, q1⟩ := h1.seg
   obtain ⟨l2, g2, c2, t2, q2⟩ := h2.seg
   refine ⟨Nat.le_trans h1.nq h2.nq, fun q h => h1.avail q (h2.avail q h), ?_, ?_, ?_,
@@ -228,37 +228,37 @@ theorem Sem2.trans' {σ0 : FState} {wo : Bool} {Q : FState → Nat → Prop} {W1
       rw [← cur_of_gates g1]
       exact q2 hwo
 
-theorem Sem2.mono {σ0 : FState} {wo : Bool} {Q : FState → Nat → Prop} {W W' : Nat → Prop} {K K' : BExp → Prop}
-    {Mk Mk' : Nat → Prop} {s s' : CState} (h : Sem2 σ0 wo Q W K Mk s s')
+theorem Sem2.mono {scope : List String} {σ0 : FState} {wo : Bool} {Q : FState → Nat → Prop} {W W' : Nat → Prop} {K K' : BExp → Prop}
+    {Mk Mk' : Nat → Prop} {s s' : CState} (h : Sem2 scope σ0 wo Q W K Mk s s')
     (hw : ∀ q, (¬ Avail s q ∨ Avail s' q) → W q → W' q) (hk : ∀ e, K e → K' e) (hm : ∀ m, Mk m → Mk' m) :
-    Sem2 σ0 wo Q W' K' Mk' s s' :=
+    Sem2 scope σ0 wo Q W' K' Mk' s s' :=
   ⟨h.nq, h.avail, fun q hnw hav => h.frame q (fun hwq => hnw (hw q hav hwq)) hav,
    fun p hp => (h.keys p hp).imp id (hk _), fun m hm' => (h.marks m hm').imp id (hm _),
    h.mkeep, h.akeep, h.qkeep, h.qnew, h.seg⟩
 
-theorem Sem2.monoQ {σ0 : FState} {wo : Bool} {Q Q' : FState → Nat → Prop} {W : Nat → Prop} {K : BExp → Prop}
-    {Mk : Nat → Prop} {s s' : CState} (h : Sem2 σ0 wo Q W K Mk s s') (hq : ∀ f c, Q f c → Q' f c) :
-    Sem2 σ0 wo Q' W K Mk s s' := by
+theorem Sem2.monoQ {scope : List String} {σ0 : FState} {wo : Bool} {Q Q' : FState → Nat → Prop} {W : Nat → Prop} {K : BExp → Prop}
+    {Mk : Nat → Prop} {s s' : CState} (h : Sem2 scope σ0 wo Q W K Mk s s') (hq : ∀ f c, Q f c → Q' f c) :
+    Sem2 scope σ0 wo Q' W K Mk s s' := by
   obtain ⟨l, g, c, t, q⟩ := h.seg
   exact ⟨h.nq, h.avail, h.frame, h.keys, h.marks, h.mkeep, h.akeep, h.qkeep, h.qnew,
     ⟨l, g, c, t, fun hwo => CtlOK.mono hq l _ (q hwo)⟩⟩
 
 /-- replace the frame by a stronger one proved from the values -/
-theorem Sem2.reframe {σ0 : FState} {wo : Bool} {Q : FState → Nat → Prop} {W W' : Nat → Prop} {K : BExp → Prop}
-    {Mk : Nat → Prop} {s s' : CState} (h : Sem2 σ0 wo Q W K Mk s s')
+theorem Sem2.reframe {scope : List String} {σ0 : FState} {wo : Bool} {Q : FState → Nat → Prop} {W W' : Nat → Prop} {K : BExp → Prop}
+    {Mk : Nat → Prop} {s s' : CState} (h : Sem2 scope σ0 wo Q W K Mk s s')
     (hf : ∀ q, ¬ W' q → (¬ Avail s q ∨ Avail s' q) → cur σ0 s' q = cur σ0 s q) :
-    Sem2 σ0 wo Q W' K Mk s s' :=
+    Sem2 scope σ0 wo Q W' K Mk s s' :=
   ⟨h.nq, h.avail, hf, h.keys, h.marks, h.mkeep, h.akeep, h.qkeep, h.qnew, h.seg⟩
 
 /-- a step that appends no gate and leaves `numQubits`, the free set, the ancilla set and the `qubit_map` alone -/
-theorem Sem2.of_quiet {σ0 : FState} {wo : Bool} {Q : FState → Nat → Prop} {W : Nat → Prop} {K : BExp → Prop}
+theorem Sem2.of_quiet {scope : List String} {σ0 : FState} {wo : Bool} {Q : FState → Nat → Prop} {W : Nat → Prop} {K : BExp → Prop}
     {Mk : Nat → Prop} {s s' : CState}
     (hg : s'.qc.gates = s.qc.gates) (hc : s'.qc.gatesComputed = s.qc.gatesComputed)
     (hn : s'.qc.numQubits = s.qc.numQubits) (hf : s'.qc.free = s.qc.free) (ha : s'.qc.anc = s.qc.anc)
     (hq : s'.qc.qmap = s.qc.qmap)
     (hk : ∀ p ∈ s'.expq, (∃ p0 ∈ s.expq, p0.1 = p.1) ∨ K p.1)
     (hm : ∀ m ∈ s'.qc.marked, m ∈ s.qc.marked ∨ Mk m) (hmk : ∀ m ∈ s.qc.marked, m ∈ s'.qc.marked) :
-    Sem2 σ0 wo Q W K Mk s s' := by
+    Sem2 scope σ0 wo Q W K Mk s s' := by
   refine ⟨Nat.le_of_eq hn.symm, ?_, ?_, hk, hm, hmk, fun a h => by rw [ha]; exact h,
     fun n q _ h => by rw [hq]; exact h, fun n q h => Or.inl (by rw [← hq]; exact h),
     ⟨[], by rw [hg]; simp, by rw [hc]; simp, fun _ h => absurd h List.not_mem_nil, fun _ => trivial⟩⟩
@@ -294,7 +294,7 @@ def Priv (scope : List String) (s : CState) (d : Nat) : Prop :=
 
 theorem Priv.next {scope : List String} {σ0 : FState} {wo : Bool} {Q : FState → Nat → Prop} {W : Nat → Prop}
     {K : BExp → Prop} {Mk : Nat → Prop} {s s' : CState} {d : Nat} (h : Priv scope s d)
-    (sem : Sem2 σ0 wo Q W K Mk s s') : Priv scope s' d := by
+    (sem : Sem2 scope σ0 wo Q W K Mk s s') : Priv scope s' d := by
   refine ⟨fun ha => h.1 (sem.avail d ha), fun n hk hq => ?_⟩
   rcases sem.qnew n d hq with h' | h'
   · exact h.2 n hk h'
@@ -361,11 +361,11 @@ theorem appendG_push {cls : GClass} {wires : List Nat} {gid : Option (Nat × Nat
       exact ⟨_, rfl, rfl, rfl, by simp [hn]⟩
 
 /-- one X/CX/MCX gate on `cs ++ [t]`, `t` outside the scratch space -/
-theorem gate_sem2 {σ0 : FState} {wo : Bool} {Q : FState → Nat → Prop} {cls : GClass} {cs : List Nat} {t : Nat}
+theorem gate_sem2 {scope : List String} {σ0 : FState} {wo : Bool} {Q : FState → Nat → Prop} {cls : GClass} {cs : List Nat} {t : Nat}
     {u : Unit} {s s' : CState} (h : (append cls (cs ++ [t])).run s = .ok (u, s'))
     (hc : cls.isMCXLike = true) (hnop : cls.isNop = false) (ht : ¬ Avail s t)
     (hq : wo = false → ∀ c ∈ cs, Q (cur σ0 s) c) :
-    Appended cls (cs ++ [t]) s s' ∧ Sem2 σ0 wo Q (· = t) NoK NoQ s s' := by
+    Appended cls (cs ++ [t]) s s' ∧ Sem2 scope σ0 wo Q (· = t) NoK NoQ s s' := by
   have ha := append_run h
   unfold append at h
   obtain ⟨b, hb⟩ := run_discard_ok.mp h
@@ -442,7 +442,7 @@ leaves it, and is an ancilla -/
 theorem getFreeAncilla_sem2 {scope : List String} {ρ : Env} {σ0 : FState} {wo : Bool}
     {Q : FState → Nat → Prop} {a : Nat} {s s' : CState}
     (h : getFreeAncilla.run s = .ok (a, s')) (hp : Pre2 scope ρ σ0 s) :
-    Pre2 scope ρ σ0 s' ∧ Sem2 σ0 wo Q NoQ NoK NoQ s s' ∧ cur σ0 s' = cur σ0 s ∧ Avail s a ∧ ¬ Avail s' a ∧
+    Pre2 scope ρ σ0 s' ∧ Sem2 scope σ0 wo Q NoQ NoK NoQ s s' ∧ cur σ0 s' = cur σ0 s ∧ Avail s a ∧ ¬ Avail s' a ∧
       a ∈ s'.qc.anc := by
   have hg' : Good s' := (getFreeAncilla_ok (B := fun _ => False) h hp.good).1.good
   obtain ⟨hex, hgt, hgc, hmk, hcase⟩ := getFreeAncilla_run2 h
@@ -453,8 +453,9 @@ theorem getFreeAncilla_sem2 {scope : List String} {ρ : Env} {σ0 : FState} {wo 
       rcases hq with hq | hq
       · cases hq
       · exact Or.inr (by omega)
-    have hqk : ∀ n q, ancLike n = false → dictGet? s.qc.qmap n = some q → dictGet? s'.qc.qmap n = some q := by
-      intro n q hna hq
+    have hqk : ∀ n q, Known scope n → dictGet? s.qc.qmap n = some q → dictGet? s'.qc.qmap n = some q := by
+      intro n q hkn hq
+      have hna := known_notAnc hp.scopeOK hkn
       rw [hqm, dictGet?_dictSet_ne]
       · exact hq
       · rintro rfl; rw [ancLike_anc] at hna; cases hna
@@ -489,7 +490,7 @@ theorem getFreeAncilla_sem2 {scope : List String} {ρ : Env} {σ0 : FState} {wo 
         simp only at this; omega
     · intro n hn'
       obtain ⟨q, hq⟩ := hp.bound n hn'
-      exact ⟨q, hqk n q (notAnc_of_notReserved (hp.scopeOK n hn')) hq⟩
+      exact ⟨q, hqk n q (Or.inl hn') hq⟩
     · intro m hm
       rw [hmk] at hm; rw [hanc]; exact mem_setIns_of_mem (hp.mkAnc m hm)
     · unfold Avail; rw [hf', hn]
